@@ -6,6 +6,8 @@ sid, prop, wt, k, caught, needs, notes = sys.argv[1:8]
 HERE = os.path.dirname(os.path.dirname(os.path.abspath(__file__)))
 src = os.path.join(wt, os.environ.get('SEED_DIR', 'MUTANTS'), k)
 dst = os.path.join(HERE, 'seeded', sid)
+if os.path.exists(dst) and not os.environ.get('KEEP_OVERWRITE'):
+    sys.exit('seeded/%s exists already - choose a free id (or set KEEP_OVERWRITE=1 to replace it on purpose)' % sid)
 os.makedirs(dst, exist_ok=True)
 for f in ('patch.diff', 'demo.py', 'README.txt'):
     if os.path.exists(os.path.join(src, f)):
